@@ -5,6 +5,7 @@ import (
 	"go/ast"
 	"go/token"
 	"go/types"
+	"golang.org/x/tools/go/types/typeutil"
 	"strings"
 
 	"cachelint/pw"
@@ -42,6 +43,7 @@ func checkC15(c *Ctx) {
 	c.c15RangeShrink()
 	c.c15Protocol()
 	c.c15Labelling()
+	c.c15DefaultDeleter()
 	// the count sums the deleters' nil results: it equals the entries removed only if the in-module Delete reports nil exactly once
 	// per removed entry — presence check and removal in one critical section (two concurrent invalidations sharing a key must not
 	// both count it), nil only with evidence of presence
@@ -49,7 +51,9 @@ func checkC15(c *Ctx) {
 		for _, b := range backends {
 			c.c08Backend(b)
 		}
-	}, func(o *coreObl) (string, bool) { return "R15.4", o.Rule == "R08.2" && strings.HasSuffix(o.Construct, ".Delete") })
+	}, func(o *coreObl) (string, bool) {
+		return "R15.4", o.Rule == "R08.2" && strings.HasSuffix(o.Construct, ".Delete")
+	})
 	c.borrow("C07", func() {
 		for _, b := range backends {
 			c.c07Delete(b)
@@ -299,6 +303,49 @@ func (c *Ctx) c15RangeShrink() {
 	r.Count("slice_range_loops", n)
 	if !bad {
 		r.OK("R15.2", "package", fmt.Sprintf("%d range loops over slice variables, none re-slices its operand", n))
+	}
+}
+
+// c15DefaultDeleter: the label index embedded in a backend deletes from that very backend: its constructor creates the index with
+// the backend instance as the default deleter (an index without it invalidates nothing and reports success).
+func (c *Ctx) c15DefaultDeleter() {
+	r := c.R
+	info := c.Pkg.TypesInfo
+	for _, b := range backends {
+		ctor := "New" + b.Wrapper
+		fd, _ := c.funcDecl(ctor)
+		if fd == nil {
+			r.Unknown("R15.6", ctor, "constructor does not resolve")
+			continue
+		}
+		n, ok := 0, false
+		ast.Inspect(fd.Body, func(x ast.Node) bool {
+			call, isCall := x.(*ast.CallExpr)
+			if !isCall {
+				return true
+			}
+			callee, _ := typeutil.Callee(info, call).(*types.Func)
+			if callee == nil || callee.Name() != "NewInvalidationIndex" {
+				return true
+			}
+			n++
+			for _, a := range call.Args {
+				if t := info.TypeOf(a); t != nil {
+					if tn := namedTypeName(t); tn == b.Name || tn == b.Wrapper {
+						ok = true
+					}
+				}
+			}
+			return true
+		})
+		switch {
+		case n == 0:
+			r.Unknown("R15.6", ctor, "the constructor does not create a label index")
+		case !ok:
+			r.Bad("R15.6", ctor, "index-without-own-deleter", c.Pos(fd.Pos()), "the backend's label index is created without the backend itself as deleter: InvalidateByLabels on it removes nothing", nil)
+		default:
+			r.OK("R15.6", ctor, "label index created with the backend as default deleter")
+		}
 	}
 }
 
